@@ -1254,4 +1254,92 @@ example : Ordered ([[⟨10, [(1, some 5)]⟩], [⟨11, []⟩, ⟨11, [(1, Option
     ¬ BatchRaises [[⟨10, [(1, some 5)]⟩], [⟨11, []⟩, ⟨11, [(1, Option.none), (2, some 7)]⟩], []] :=
   ⟨⟨by simp, by decide, by decide⟩, not_batchRaises_of_first _ ⟨10, [(1, some 5)]⟩ rfl (by simp)⟩
 
+/-- **which earlier versions can be re-merged**: a version `w` of a stamp-ordered history shows, as of its stamp, exactly its own
+    non-NaN values - the hypothesis `hvis` of `merge_idem` - provided no version merged after it under the SAME stamp publishes a
+    different non-NaN value for one of its dates.  (The comment of `merge_idem` said this in prose; `last_version_visible` is the case
+    `after = []`.)  Such a version need not be "in the store" row by row: a row that repeats the value before it is compressed away. -/
+theorem earlier_version_visible (before : List Version) (w : Version) (after : List Version)
+    (h : Ordered (before ++ w :: after)) (st : Store) (hst : history (before ++ w :: after) = some st)
+    (hno : ∀ u ∈ after, u.stamp = w.stamp → ∀ p ∈ w.ts, ∀ x, p.2 = some x → ∀ y, (p.1, some y) ∈ u.ts → y = x) :
+    ∀ p ∈ w.ts, ∃ y, (p.1, y) ∈ biRead st (some w.stamp) (-1) ∧ (p.2 = Option.none ∨ p.2 = y) := by
+  intro p hp
+  obtain ⟨st', hst', hr⟩ := read_spec _ h (some w.stamp)
+  rw [hst] at hst'; cases hst'
+  have hwf : w.ts.Sorted := h.wf w (by simp)
+  have hW : col p.1 w.stamp [w] = [⟨p.1, w.stamp, p.2⟩] := by
+    rw [col_cons, if_pos (Int.le_refl _), group_Bi_single w.ts w.stamp hwf p hp]
+    simp [col, logRows, group]
+  have hsplit : col p.1 w.stamp (before ++ w :: after) =
+      col p.1 w.stamp before ++ ([⟨p.1, w.stamp, p.2⟩] ++ col p.1 w.stamp after) := by
+    have e : before ++ w :: after = before ++ ([w] ++ after) := by simp
+    rw [e, col_append, col_append, hW]
+  refine ⟨lastVal (col p.1 w.stamp (before ++ w :: after)), ?_, ?_⟩
+  · rw [hr, specRead_eq]
+    simp only [specRows, List.mem_map, Prod.mk.injEq]
+    refine ⟨p.1, ?_, rfl, by simp only [col, group_filter]⟩
+    rw [mem_dates]
+    refine ⟨⟨p.1, w.stamp, p.2⟩, List.mem_filter.mpr ⟨?_, by simp [vis]⟩, rfl⟩
+    simp only [logRows, List.mem_flatMap, Bi, List.mem_map]
+    exact ⟨w, by simp, p, hp, rfl⟩
+  · cases hx : p.2 with
+    | none => exact Or.inl rfl
+    | some x =>
+      right
+      have hB : ∀ r ∈ col p.1 w.stamp after, r.val = Option.none ∨ r.val = some x := by
+        intro r hr'
+        obtain ⟨u, hu, huT, _, _, hpu⟩ := mem_col.mp hr'
+        have hge : w.stamp ≤ u.stamp := by
+          have hs := h.stamps
+          rw [List.pairwise_append] at hs
+          exact List.rel_of_pairwise_cons hs.2.1 hu
+        cases hv : r.val with
+        | none => exact Or.inl rfl
+        | some y =>
+          right
+          rw [hv] at hpu
+          rw [hno u hu (by omega) p hp x hx y hpu]
+      rw [hsplit, lastVal_append, lastVal_append, hx]
+      rcases lastVal_noop (some x) _ hB with e | e <;> rw [e] <;> simp [lastVal]
+
+/-- **idempotence for the rest of the history, for every such version**: `merge_idem_future` with the hypothesis of `merge_idem`
+    instead of "rows of the store": the re-merged `w` is a version of the log whose values are NaN or the values visible as of its
+    stamp (by `earlier_version_visible`: every version that no same-stamp successor contradicts).  Whatever stamp-ordered versions
+    follow, all as-of reads and first reads are those of the history without the re-merge. -/
+theorem merge_idem_future_visible (log : List Version) (h : Ordered log) (st : Store) (hst : history log = some st) (w : Version)
+    (hw : w ∈ log)
+    (hvis : ∀ p ∈ w.ts, ∃ y, (p.1, y) ∈ biRead st (some w.stamp) (-1) ∧ (p.2 = Option.none ∨ p.2 = y))
+    (later : List Version) (hl : Ordered (log ++ later)) (T : Option Int) :
+    ∃ st₁ st₂, later.foldl (fun s v => some (biMerge s (Bi v.ts v.stamp))) (some (biMerge (some st) (Bi w.ts w.stamp))) = some st₁ ∧
+      history (log ++ later) = some st₂ ∧
+      biRead st₁ T (-1) = biRead st₂ T (-1) ∧ biRead st₁ T 0 = biRead st₂ T 0 ∧
+      biRead st₁ T (-1) = specRead (log ++ later) T ∧ biRead st₁ T 0 = specFirst (log ++ later) T := by
+  obtain ⟨st', hst', hinv⟩ := history_inv log h.ne h.wf h.stamps
+  rw [hst] at hst'; cases hst'
+  have hs := logRows_sorted _ hl.stamps
+  have hsub : ∀ p ∈ w.ts, (⟨p.1, w.stamp, p.2⟩ : Row) ∈ logRows log := by
+    intro p hp
+    simp only [logRows, List.mem_flatMap, Bi, List.mem_map]
+    exact ⟨w, hw, p, hp, rfl⟩
+  obtain ⟨st₁, e1, i1⟩ := inv_foldl later _ log (inv_remerge_visible hinv w hsub hvis) hs
+  obtain ⟨st₂, e2, i2⟩ := inv_foldl later st log hinv hs
+  have hsl : ∀ d, SortedLe (group d (logRows (log ++ later))) := fun d => hs.sublist List.filter_sublist
+  have r1 : biRead st₁ T (-1) = specRead (log ++ later) T := by
+    rw [biRead_last st₁ i1.1, specRead_eq, specRows_congr i1.2.1]
+  have r2 : biRead st₂ T (-1) = specRead (log ++ later) T := by
+    rw [biRead_last st₂ i2.1, specRead_eq, specRows_congr i2.2.1]
+  have f1 : biRead st₁ T 0 = specFirst (log ++ later) T := by
+    rw [biRead_first st₁ i1.1, specFirst_eq]
+    exact firstRows_congr i1.2.1 (fun d => (i1.1 d).1.le) hsl T
+  have f2 : biRead st₂ T 0 = specFirst (log ++ later) T := by
+    rw [biRead_first st₂ i2.1, specFirst_eq]
+    exact firstRows_congr i2.2.1 (fun d => (i2.1 d).1.le) hsl T
+  refine ⟨st₁, st₂, e1, ?_, r1.trans r2.symm, f1.trans f2.symm, r1, f1⟩
+  rw [history_append, hst]; exact e2
+
+-- `earlier_version_visible` on a version in the middle whose row is NOT a row of the store (`5@11` repeats `5@10` and is compressed away)
+example : Ordered ([⟨10, [(1, some 5)]⟩] ++ ⟨11, [(1, some 5)]⟩ :: [⟨11, [(1, Option.none)]⟩, ⟨12, [(1, some 7)]⟩]) :=
+  ⟨by simp, by decide, by decide⟩
+#guard (history [⟨10, [(1, some 5)]⟩, ⟨11, [(1, some 5)]⟩, ⟨11, [(1, Option.none)]⟩, ⟨12, [(1, some 7)]⟩]) =
+  some [⟨1, 10, some 5⟩, ⟨1, 12, some 7⟩]
+
 end Pyg.Props.C17
